@@ -24,6 +24,12 @@ def outage_family():
             ops = list(warm) + ['down A B'] + work + ['pass A', f'tick {gap}', 'pass A', 'up A B', 'pass A', 'pass A', 'del A B',
                                                       'del A B', 'in B 3', 'heal']
             yield {'names': ['A', 'B'], 'phens': gc.CONFLICT, 'cache': 1000, 'ops': ops}
+    # the resync period configured BELOW the ping period: the silence that calls for a snapshot is the one configured
+    for gap in (3, 5, 6, 7, 11, 12, 13, 30):
+        for work in (['in A 1'], ['in A 1', 'in A 2'], []):
+            ops = list(warm) + ['down A B'] + work + ['pass A', f'tick {gap}', 'pass A', 'up A B', 'tick 2', 'pass A', 'pass A', 'del A B',
+                                                      'del A B', 'in B 3', 'heal']
+            yield {'names': ['A', 'B'], 'phens': gc.CONFLICT, 'cache': 1000, 'periods': dict(gc.EAGER_RESYNC), 'ops': ops}
 
 
 def scenarios(ctx: Ctx, res: Result):
@@ -83,7 +89,7 @@ SPEC = PropSpec(
     prop='C06', translators=['modes'], run=run, search=search,
     rule='repeated-failure family (2-3 consecutive failed or unacknowledged SYNCs to one peer with successive states of one run), outage family (a link down for 5..120 s around the ping/resync thresholds with 0-2 changes pending), merged-backlog family, '
          'and seeded random fault sequences of 8-40 operations over {input, pass, deliver, down, up, fail-after-delivery, '
-         'tick 1/5/10/31/61} for 2-3 instances with default and short periods, each followed by healing all links and running '
+         'tick 1/5/10/31/61} for 2-3 instances with default, short and resync-below-ping periods (`EAGER_RESYNC`; also in the outage family), each followed by healing all links and running '
          'the protocol to quiescence',
     trusted_base=['harness/cluster.py in-memory network double: the three return codes of _tcp_send are the only way socket behaviour '
                   'reaches the protocol'],
